@@ -108,10 +108,13 @@ def mark_left_recursion(rules: Iterable[Rule]) -> list[Rule]:
                     break
 
             if not leaders:
-                leaders = set(scc)
-
-            leader_name = min(leaders)
-            rules[rule_index[leader_name]].is_lrec = True
+                # no rule is common to all the cycles:
+                # every rule has to guard the cycles it is on
+                for name in scc:
+                    rules[rule_index[name]].is_lrec = True
+            else:
+                leader_name = min(leaders)
+                rules[rule_index[leader_name]].is_lrec = True
 
         elif len(scc) == 1:
             name = min(scc)
